@@ -147,6 +147,18 @@ def condTrue (cs : List Cond) (ty : Nat) : Bool :=
   | some c => c.st
   | none => false
 
+/-- `cond == nil || cond.Status == False` -/
+def condAbsentOrFalse (cs : List Cond) (ty : Nat) : Bool :=
+  match getCond cs ty with
+  | some c => !c.st
+  | none => true
+
+/-- `cond != nil && cond.Reason == reason` -/
+def condReasonIs (cs : List Cond) (ty reason : Nat) : Bool :=
+  match getCond cs ty with
+  | some c => c.reason == reason
+  | none => false
+
 /-! ### in-flight state of one reconcile -/
 
 inductive ActK where
@@ -199,6 +211,8 @@ def M.wok (m : M) : Bool := !(m.faults.testBit m.w)
 def M.logw (m : M) (k : ActK) (arg : Nat := 0) : M :=
   { m with w := m.w + 1, acts := m.acts ++ [⟨k, m.wok, arg⟩] }
 
+def M.logAct (m : M) (a : Act) : M := { m with acts := m.acts ++ [a] }
+
 def M.setStatus (m : M) (f : Status → Status) : M := { m with mem := { m.mem with status := f m.mem.status } }
 def M.setSpec (m : M) (f : Spec → Spec) : M := { m with mem := { m.mem with spec := f m.mem.spec } }
 
@@ -220,11 +234,10 @@ def M.evictCall (m : M) (uid : Nat) : Bool × M :=
 
 /-- controller.go `updateCondition` -/
 def updateCondition (m : M) (c : Cond) : Bool × M :=
-  let r := setCond m.mem.status.conds c
-  let m := m.setStatus fun s => { s with conds := r.1 }
-  if r.2 then
-    (m.setStatus fun s => { s with status := c.ty, reason := c.reason }).statusUpdate
-  else (true, m)
+  if (setCond m.mem.status.conds c).2 then
+    ((m.setStatus fun s => { s with conds := (setCond m.mem.status.conds c).1 }).setStatus
+      fun s => { s with status := c.ty, reason := c.reason }).statusUpdate
+  else (true, m.setStatus fun s => { s with conds := (setCond m.mem.status.conds c).1 })
 
 /-- the `abortJobBy…` family: phase Failed + reason, one status write whose error is returned/ignored -/
 def abortWith (m : M) (reason : Nat) : M :=
@@ -291,18 +304,17 @@ def boundByOther (m : M) (pod : Option Pod) : Res :=
 
 /-- `evictPod`: `.cont` = (true, _, nil) -/
 def evictPod (m : M) : Res :=
-  let cond := getCond m.mem.status.conds CT.eviction
-  if (match cond with | some c => c.st | none => false) then .cont m else
+  if condTrue m.mem.status.conds CT.eviction then .cont m else
   match m.env.pod with
   | none =>
     if m.mem.status.status ≠ CT.eviction then .stop (abortWith m Rs.missingPod)
     else okOr (updateCondition m ⟨CT.eviction, true, Rs.evictComplete, 0⟩)
   | some p =>
-    if cond.isSome && m.mem.spec.podUID != 0 && m.mem.spec.podUID != p.uid then
+    if (getCond m.mem.status.conds CT.eviction).isSome && m.mem.spec.podUID != 0 && m.mem.spec.podUID != p.uid then
       if m.mem.status.status ≠ CT.eviction then .stop (abortWith m Rs.missingPod)
       else okOr (updateCondition m ⟨CT.eviction, true, Rs.evictComplete, 0⟩)
     else
-    if (match cond with | some c => c.reason == Rs.evicting | none => false) then .stop m else
+    if condReasonIs m.mem.status.conds CT.eviction Rs.evicting then .stop m else
     (boundByOther m none).bind fun m =>
     match m.evictCall p.uid with
     | (false, m) => .stop m
@@ -336,7 +348,7 @@ def setReservationOrder (m : M) : Res :=
 
 /-- `syncReservationScheduleFailed` -/
 def syncScheduleFailed (m : M) (r : Resv) : Res :=
-  if (match getCond m.mem.status.conds CT.resvScheduled with | none => true | some c => !c.st) then
+  if condAbsentOrFalse m.mem.status.conds CT.resvScheduled then
     if r.sched = 3 then okOr (updateCondition m ⟨CT.resvScheduled, false, Rs.unschedulable, r.msg⟩) else .cont m
   else .cont m
 
@@ -344,15 +356,27 @@ def syncScheduleFailed (m : M) (r : Resv) : Res :=
 def preemptGate (m : M) (r : Resv) : Res :=
   if resvScheduled r then .cont m else
   if !r.needPreempt || m.env.preempt == 0 then .stop (abortWith m Rs.unschedulable) else
-  let m := { m with acts := m.acts ++ [⟨.preempt, m.env.preempt != 3, 0⟩] }
-  if m.env.preempt = 2 then .cont m else .stop m
+  if m.env.preempt = 2 then .cont (m.logAct ⟨.preempt, m.env.preempt != 3, 0⟩)
+  else .stop (m.logAct ⟨.preempt, m.env.preempt != 3, 0⟩)
+
+/-- `abortJobIfReserveOnSameNode`: the pod exists and sits on `node` (`node ≠ ""` is checked by the caller) -/
+def sameNode (pod : Option Pod) (node : Nat) : Bool :=
+  match pod with
+  | some p => node == p.node
+  | none => false
 
 /-- `prepareJobWithReservationScheduleSuccess` (+ `abortJobIfReserveOnSameNode`) -/
 def prepareScheduleSuccess (m : M) (r : Resv) : Res :=
   if r.node = 0 ∨ m.mem.status.node ≠ 0 then .cont m else
   if condTrue m.mem.status.conds CT.resvScheduled then .cont m else
-  if (match m.env.pod with | some p => r.node == p.node | none => false) then .stop (abortWith m Rs.forbidden) else
+  if sameNode m.env.pod r.node then .stop (abortWith m Rs.forbidden) else
   okOr (updateCondition (m.setStatus fun s => { s with node := r.node }) ⟨CT.resvScheduled, true, Rs.none, 0⟩)
+
+/-- tail of `waitForPendingPodScheduled`: `util.UpdateCondition(PodScheduled=True)`, status write only if it changed -/
+def podScheduledDone (m : M) : M :=
+  if (setCond m.mem.status.conds ⟨CT.podScheduled, true, Rs.none, 0⟩).2 then
+    (m.setStatus fun s => { s with conds := (setCond m.mem.status.conds ⟨CT.podScheduled, true, Rs.none, 0⟩).1 }).statusUpdate.2
+  else m.setStatus fun s => { s with conds := (setCond m.mem.status.conds ⟨CT.podScheduled, true, Rs.none, 0⟩).1 }
 
 /-- `waitForPendingPodScheduled` (always returns) -/
 def waitPendingPod (m : M) : M :=
@@ -364,10 +388,7 @@ def waitPendingPod (m : M) : M :=
       | .stop m => m
       | .cont m => (updateCondition m ⟨CT.podScheduled, false, Rs.unschedulable, if p.sched = 0 then 0 else p.schedMsg⟩).2
     else
-      let m := m.setStatus fun s => { s with phase := Ph.succeeded, status := CT.complete, reason := Rs.none }
-      let r := setCond m.mem.status.conds ⟨CT.podScheduled, true, Rs.none, 0⟩
-      let m := m.setStatus fun s => { s with conds := r.1 }
-      if r.2 then m.statusUpdate.2 else m
+      podScheduledDone (m.setStatus fun s => { s with phase := Ph.succeeded, status := CT.complete, reason := Rs.none })
 
 /-- `waitForPodBindReservation` -/
 def waitBind (m : M) (r : Resv) : Res :=
@@ -376,10 +397,10 @@ def waitBind (m : M) (r : Resv) : Res :=
 
 /-- `handleReservationBoundSuccess` -/
 def boundSuccess (m : M) : Res :=
-  let r := setCond m.mem.status.conds ⟨CT.resvBound, true, Rs.none, 0⟩
-  let had := m.mem.status.podRef
-  let m := m.setStatus fun s => { s with conds := r.1 }
-  if !had || r.2 then okOr (m.setStatus fun s => { s with podRef := true }).statusUpdate else .cont m
+  if !m.mem.status.podRef || (setCond m.mem.status.conds ⟨CT.resvBound, true, Rs.none, 0⟩).2 then
+    okOr ((m.setStatus fun s => { s with conds := (setCond m.mem.status.conds ⟨CT.resvBound, true, Rs.none, 0⟩).1 }).setStatus
+      fun s => { s with podRef := true }).statusUpdate
+  else .cont (m.setStatus fun s => { s with conds := (setCond m.mem.status.conds ⟨CT.resvBound, true, Rs.none, 0⟩).1 })
 
 /-- `waitForPodReady` -/
 def waitReady (m : M) : Res :=
@@ -389,9 +410,8 @@ def waitReady (m : M) : Res :=
 /-- the tail of doMigrate after `waitForPodReady` -/
 def finish (m : M) : Res :=
   (okOr (updateCondition m ⟨CT.boundPodReady, true, Rs.none, 0⟩)).bind fun m =>
-    let m := m.setStatus fun s => { s with podRef := true, phase := Ph.succeeded, status := CT.complete, reason := Rs.none }
-    let m := m.setStatus fun s => { s with conds := (setCond s.conds ⟨CT.podBound, true, Rs.none, 0⟩).1 }
-    .stop m.statusUpdate.2
+    .stop ((m.setStatus fun s => { s with podRef := true, phase := Ph.succeeded, status := CT.complete, reason := Rs.none }).setStatus
+      fun s => { s with conds := (setCond m.mem.status.conds ⟨CT.podBound, true, Rs.none, 0⟩).1 }).statusUpdate.2
 
 /-- everything after the reservation object has been fetched (controller.go:343–431) -/
 def withReservation (m : M) (r : Resv) : Res :=
